@@ -54,6 +54,32 @@ VALREPS = {
 }
 
 
+def _some_function(x=None):
+    """a callable used as an attribute VALUE and as a sought value (searches compare with ==, never call it)"""
+    return True
+
+
+VALREPS[7] = [_some_function]
+
+# user attributes given to links: ordinary payload whose NAMES a careless implementation might use itself
+LINK_ATTRS = {
+    1: {"directed": False, "undirected": True, "weight": 3},
+    2: {"kind": "x", "visited": True, "mark": 7, "i": 0},
+    3: {"directed": True, "undirected": False, "name": "e"},
+}
+# `attributes=` arguments a constructor must reject (TypeError / AttributeError) without having touched anything
+BAD_ATTRS = {1: 5, 2: {"uid": 12}, 3: {"vertices": ()}, 4: {7: 7}}
+
+
+def double_init_class(base):
+    """a subclass whose construction runs the base initialiser TWICE with the same arguments (what non-cooperative
+    multiple inheritance does: `class City(Named, Weighted)` with both bases calling `Vertex.__init__` explicitly)"""
+    def __init__(self, **kw):
+        base.__init__(self, **kw)
+        base.__init__(self, **kw)
+    return type(base.__name__, (base,), {"__init__": __init__, "__qualname__": base.__qualname__, "__module__": base.__module__})
+
+
 def _rules_table():
     from edgegraph.structure import DirectedEdge, UnDirectedEdge
     return {
@@ -275,6 +301,8 @@ class Real:
         self.reset()
 
     # ------------------------------------------------------------------ state
+    _di = {}
+
     def reset(self):
         Vertex.NEIGHBOR_CACHING = False
         Vertex._CACHE_STATS = {}
@@ -604,7 +632,7 @@ class Real:
                 elif k == "i" and type(val) is int:
                     attrs.append("99:%d" % val)
             vs.append("V%d:%s l=[%s] u=[%s] m=[%s] w=%s a=[%s]" % (
-                i, VCLS_NAME[type(v)], links, unis, mem, laws, ",".join(attrs)))
+                i, next(VCLS_NAME[c] for c in type(v).__mro__ if c in VCLS_NAME), links, unis, mem, laws, ",".join(attrs)))
         ls = []
         for i, l in enumerate(self.L):
             ends = ",".join("-" if e is None else str(self.vname(e)) for e in l.vertices)
@@ -632,6 +660,7 @@ class Real:
 
     # -------------------------------------------------------------------- ops
     keep_mode = False
+    double_init = False             # every other plain vertex is built by a class whose initialiser runs twice (C02)
     plain_filters = False           # filters number k with k % 7 == 3 are plain functions sharing one code object (never in pickled worlds)
     long_lived_filters = False      # C13 injects faults through the filter object: it must be the memo's key
 
@@ -705,6 +734,10 @@ class Real:
                 key = tuple(id(u_) for u_ in us)
                 us = self._shared_ulists.setdefault(key, us)
             uarg = (u_ for u_ in us) if kind == 0 else us if kind == 1 else tuple(us)
+            if self.double_init and toks[1] in ("V", "SV") and len(self.V) % 2 == 0:
+                # the initialiser runs twice with the same (re-iterable) arguments
+                cls = self._di.setdefault(cls, double_init_class(cls))
+                uarg = us if kind == 1 else tuple(us)
             hook = self.opt(opts, "h")
             if hook:
                 # a bound method of a universe among the constructor's attributes (so that it precedes the
@@ -744,7 +777,16 @@ class Real:
                     kw["edge_whitelist"] = types.MappingProxyType(kw["edge_whitelist"])
             return "ok W%d" % self.reg_w(UniverseLaws(**kw))
         if op == "edge":
-            l = LCLS[toks[1]](self.pv(toks[2]), self.pv(toks[3]))
+            opts = toks[4:]
+            kw = {}
+            if self.opt(opts, "x"):
+                kw["uid"] = int(self.opt(opts, "x"))          # caller-supplied, possibly equal, uids on LINKS
+            if self.opt(opts, "la"):
+                kw["attributes"] = dict(LINK_ATTRS[int(self.opt(opts, "la"))])
+            if self.opt(opts, "bad"):
+                # `attributes=` that the constructor rejects: it must raise before it touches anything
+                kw["attributes"] = BAD_ATTRS[int(self.opt(opts, "bad"))]
+            l = LCLS[toks[1]](self.pv(toks[2]), self.pv(toks[3]), **kw)
             return "ok L%d" % self.reg_l(l)
         if op == "nlink":
             vs = [] if toks[1] == "." else [self.pv(t) for t in toks[1].split(",")]
